@@ -27,6 +27,7 @@ RULE = ("one simulated node with the REAL block store and a pending pool, three 
 ASSUMPTIONS = ["simnet transport model", "test configuration (fast scrypt stand-in, checkpoints off, short retarget periods)",
                "the harness sets the node's clock per delivery"]
 MIN_NONTRIVIAL = {"quick": 60, "thorough": 1500}
+F2 = "C09-F2:accepted-block-shares-a-transaction-id-with-a-stored-block"
 CATS = ["C01", "C01", "C02", "C05", "S"]
 
 
@@ -235,7 +236,8 @@ class Exec:
             from vf.props.c08 import faulty_model as _fm
             _model = {k: v for k, v in _fm([self.acc.nodes[i].blk for i in self.acc.order]).items() if v is not None}
             if disk != wantd and disk == _model:
-                self.flags["c08_f1_seen"] = self.flags.get("c08_f1_seen", 0) + 1          # C08's known finding, not judged here
+                self.flags["c08_f1_seen"] = self.flags.get("c08_f1_seen", 0) + 1          # root cause C08-F1
+                self.fail("known", F2, "after delivery of %s: an accepted block contains a transaction whose id is already stored with another block (same transaction on two forks); the store returns it with the first-written block only, so the accepted block is not stored faithfully" % tag)
             elif set(disk) != set(wantd):
                 extra, missing = set(disk) - set(wantd), set(wantd) - set(disk)
                 if extra:
@@ -246,7 +248,8 @@ class Exec:
                 from vf.props.c08 import faulty_model
                 model = {k: v for k, v in faulty_model([self.acc.nodes[i].blk for i in self.acc.order]).items() if v is not None}
                 if disk == model:
-                    self.flags["c08_f1_seen"] = self.flags.get("c08_f1_seen", 0) + 1      # C08's known finding, not judged here
+                    self.flags["c08_f1_seen"] = self.flags.get("c08_f1_seen", 0) + 1      # root cause C08-F1
+                    self.fail("known", F2, "after delivery of %s: an accepted block shares a transaction id with a stored block and is not stored faithfully" % tag)
                 else:
                     self.fail("store", "stored-content-differs", "after delivery of %s a stored block is not byte-identical" % tag)
         except Exception as e:
@@ -287,7 +290,7 @@ def execute(case):
     try:
         for idx, who in case["deliveries"]:
             ex.deliver(idx, who)
-            if ex.fails:
+            if any(f["kind"] != "known" for f in ex.fails):
                 break
         return ex.fails, ex
     finally:
